@@ -390,7 +390,27 @@ def collect_tables(repo):
     return tables, defs, order
 
 
+TABLE_DIMS_ROLE = {'af': [256, 256], 'afc': [2, 256, 256], 'f': [256], 'fc': [2, 256], 'bit': [2, 8, 256],
+                   'cf': [256, 256], 'neg': [256], 'sz53p': [256], 'parity': [256], 'r_inc': [256]}
+
+
+def dispatch_table_usage(repo):
+    """Names of the tables passed as arguments at the dispatch sites of create_opcodes."""
+    with open(os.path.join(repo, 'skoolkit/simulator.py')) as f:
+        mod = ast.parse(f.read())
+    cls = find_class(mod, 'Simulator')
+    create = [m for m in cls.body if isinstance(m, ast.FunctionDef) and m.name == 'create_opcodes'][0]
+    used = set()
+    for n in ast.walk(create):
+        if isinstance(n, ast.Call):
+            for a in n.args:
+                if isinstance(a, ast.Name):
+                    used.add(a.id)
+    return used
+
+
 def gen_simtables(repo):
+    """-> (SimTables.lean text: the table functions only, SimTblEnums.lean text, meta)"""
     tables, defs, order = collect_tables(repo)
     out = ['-- GENERATED by translate/py2lean.py from skoolkit/simtables.py and skoolkit/simulator.py. Do not edit.',
            'import SkoolVerif.Prelude.PyInt', 'set_option linter.unusedVariables false', 'namespace Tbl', '']
@@ -399,31 +419,40 @@ def gen_simtables(repo):
         out.append('')
     out.append('end Tbl')
     out.append('')
+    used = dispatch_table_usage(repo)
     kinds = {}
     for n in order:
+        if n not in used:
+            continue
         m = tables[n]
         k = ('P' if m['leaf'] == 'pair' else 'I') + str(len(m['dims']))
         kinds.setdefault(k, []).append(n)
+    en = ['-- GENERATED by translate/py2lean.py: the tables that closures receive as parameters, by shape. Do not edit.',
+          'import SkoolVerif.Gen.SimTables', '']
     for k in sorted(kinds):
         names = kinds[k]
         n = int(k[1:])
         ty = 'Int × Int' if k[0] == 'P' else 'Int'
-        out.append(f'/-- Tables of shape {k} (indices: {n}; leaf: {ty}) that closures receive as parameters. -/')
-        out.append(f'inductive Tbl{k} where')
+        en.append(f'/-- Tables of shape {k} (indices: {n}; leaf: {ty}) passed to closures at the dispatch sites. -/')
+        en.append(f'inductive Tbl{k} where')
         for nm in names:
-            out.append(f'  | {nm}')
-        out.append('  deriving DecidableEq, Repr, Inhabited')
+            en.append(f'  | {nm}')
+        en.append('  deriving DecidableEq, Repr, Inhabited')
         args = ' '.join(f'i{j}' for j in range(n))
-        out.append(f'def Tbl{k}.get : Tbl{k} → ' + 'Int → ' * n + ty)
+        en.append(f'def Tbl{k}.get : Tbl{k} → ' + 'Int → ' * n + ty)
         for nm in names:
-            out.append(f'  | .{nm}, {", ".join(f"i{j}" for j in range(n))} => Tbl.{nm} {args}')
-        out.append(f'def Tbl{k}.all : List Tbl{k} := [' + ', '.join('.' + nm for nm in names) + ']')
-        out.append(f'def Tbl{k}.name : Tbl{k} → String')
+            en.append(f'  | .{nm}, {", ".join(f"i{j}" for j in range(n))} => Tbl.{nm} {args}')
+        en.append(f'/-- index ranges of the Python tuple -/')
+        en.append(f'def Tbl{k}.dims : Tbl{k} → List Int')
         for nm in names:
-            out.append(f'  | .{nm} => "{nm}"')
-        out.append('')
+            en.append(f'  | .{nm} => {tables[nm]["dims"]}')
+        en.append(f'def Tbl{k}.all : List Tbl{k} := [' + ', '.join('.' + nm for nm in names) + ']')
+        en.append(f'def Tbl{k}.name : Tbl{k} → String')
+        for nm in names:
+            en.append(f'  | .{nm} => "{nm}"')
+        en.append('')
     meta = {'tables': tables, 'order': order, 'kinds': kinds}
-    return '\n'.join(out) + '\n', meta
+    return '\n'.join(out) + '\n', '\n'.join(en) + '\n', meta
 
 
 # ----------------------------------------------------------------------------
@@ -883,7 +912,7 @@ def gen_sim(repo, cmio=False):
     disp, order = parse_dispatch(create, handlers, tables)
     ns = 'Cmio' if cmio else 'Sim'
     out = [f'-- GENERATED by translate/py2lean.py from {fn}. Do not edit.',
-           'import SkoolVerif.Prelude.Machine', 'import SkoolVerif.Prelude.Attrs', 'import SkoolVerif.Gen.SimTables']
+           'import SkoolVerif.Prelude.Machine', 'import SkoolVerif.Prelude.Attrs', 'import SkoolVerif.Gen.SimTblEnums']
     if cmio:
         out.append('import SkoolVerif.Model.Contend')
     out += ['set_option linter.unusedVariables false', 'open Z80', 'open Contend' if cmio else '', f'namespace {ns}', '']
@@ -905,6 +934,9 @@ def gen_sim(repo, cmio=False):
         conds = []
         for p in h.params:
             if h.kinds[p] != 'int':
+                if p not in TABLE_DIMS_ROLE:
+                    raise Unsupported(f'{fn}: {h.name}: no index-range role for table parameter {p}')
+                conds.append(f'decide (Tbl{h.kinds[p]}.dims {lname(p)} = {TABLE_DIMS_ROLE[p]})')
                 continue
             if p not in ROLE:
                 raise Unsupported(f'{fn}: {h.name}: no well-formedness role for parameter {p}')
@@ -958,8 +990,9 @@ if __name__ == '__main__':
     repo = sys.argv[1] if len(sys.argv) > 1 else '/repo'
     outdir = sys.argv[2] if len(sys.argv) > 2 else os.path.join(os.path.dirname(os.path.abspath(__file__)), '..', 'lean', 'SkoolVerif', 'Gen')
     os.makedirs(outdir, exist_ok=True)
-    text, meta = gen_simtables(repo)
+    text, enums, meta = gen_simtables(repo)
     open(os.path.join(outdir, 'SimTables.lean'), 'w').write(text)
+    open(os.path.join(outdir, 'SimTblEnums.lean'), 'w').write(enums)
     json.dump(meta, open(os.path.join(outdir, 'simtables.meta.json'), 'w'), indent=1)
     text, meta = gen_sim(repo)
     open(os.path.join(outdir, 'SimHandlers.lean'), 'w').write(text)
